@@ -49,6 +49,7 @@ def patch_text(spec: dict, isa: str) -> str:
             "refadd": (f"leaq {tgt}+4(%rip), %rax" if isa == "x64" else f"leal {tgt}+4, %eax"),
             "cfi": f".cfi_adjust_cfa_offset 8\nmovb ${k}, %cl\n.cfi_adjust_cfa_offset -8",
             "cfistate": f".cfi_remember_state\n.cfi_def_cfa_offset 32\nmovb ${k}, %cl\n.cfi_restore_state",
+            "align": f".align 4\nmovb ${k}, %cl",
         }
         return table[kind]
     if isa == "arm64":
